@@ -19,7 +19,7 @@ Notation hist_of := Fleet.hist_of.
    anywhere; an ADD names a NodeHost that exists, carries no data of the shard and is not the address of a member,
    and a replica id without data anywhere; a DELETE is not proposed on the NodeHost of the member it removes *)
 Definition lchange (B : N → request → Prop) (hosts : gmap N fhost) (hist : gmap N (list hentry)) (a : N) (q : request) : Prop :=
-  is_change q = true ∧ q_ccid q = cur_version (hist_of hist (q_shard q)) ∧
+  is_change q = true ∧ q_ccid q = cur_version (hist_of hist (q_shard q)) ∧ (is_Some (hosts !! a) ∧ q_shard q ≠ 0) ∧
   (∀ a' q', B a' q' → is_create q' = true → q_shard q' ≠ q_shard q) ∧
   (is_add q = true → ∃ x t, q_members q = [x] ∧ q_addrs q = [t] ∧ x ≠ 0 ∧ t ≠ 0 ∧ is_Some (hosts !! t) ∧
       (∀ r', cur_members (hist_of hist (q_shard q)) !! r' ≠ Some t) ∧
@@ -61,9 +61,9 @@ Lemma lchange_frame B hosts hosts' hist hist' a q :
      ∃ fh, hosts !! a0 = Some fh ∧ is_Some (fh_reps fh !! k)) →
   lchange B hosts hist a q → lchange B hosts' hist' a q.
 Proof.
-  intros He Hdom Hkeys (Hch & Hf & HB & Hadd & Hdel).
+  intros He Hdom Hkeys (Hch & Hf & [Hah Hsnz] & HB & Hadd & Hdel).
   assert (Hof : hist_of hist' (q_shard q) = hist_of hist (q_shard q)) by (unfold hist_of; by rewrite He).
-  split; [done|]. split; [by rewrite Hof|]. split; [done|]. split.
+  split; [done|]. split; [by rewrite Hof|]. split; [split; [by apply Hdom|done]|]. split; [done|]. split.
   - intros Ha. destruct (Hadd Ha) as (x & t & H1 & H2 & H3 & H4 & H5 & H6 & H7 & H8).
     exists x, t. split; [done|]. split; [done|]. split; [done|]. split; [done|]. split; [by apply Hdom|].
     split; [by rewrite Hof|]. split.
@@ -277,7 +277,7 @@ Proof.
   { intros Hch Hle Hmem Haddr. split.
     - left; right; left. split; [done|]. rewrite Hof'. cbn [cur_version]. split; [lia|done].
     - split; [intros _ h' Hh'; rewrite (Hs0' h' Hh'); cbn [cur_version]; lia|]. intros Hk. unfold is_change, is_add, is_delete in Hch. unfold is_kill in Hk. by destruct (q_type q0). }
-  destruct Hbq as [[Hm Hx]|[(Hch & Hfen & _ & Hadd & Hdel) _]].
+  destruct Hbq as [[Hm Hx]|[(Hch & Hfen & _ & _ & Hadd & Hdel) _]].
   - destruct Hm as [[Hg|[(Hch & Hfen & Hmem & Haddr)|(Hk & y & Hy & Hd)]]|[(Hcr & _)|(Hres & _)]].
     + destruct Hg as (Hres & _). unfold is_restore in Hres. rewrite Hnocreate in Hres. done.
     + apply Hstale; [done| |done|done]. destruct Hx as [Hx _]. by apply Hx.
@@ -334,7 +334,7 @@ Proof.
   { intros a0 q0 Hl He. apply (lchange_frame B hosts x'.1 hist x'.2); [done| | |done].
     - intros a1 Ha1. by apply Hdom.
     - intros a1 fh' k Hfh' Hk Hks. destruct (Hkeys a1 fh' k Hfh' Hk) as [?|[Hc ->]]; [done|]. exfalso.
-      destruct Hl as (_ & _ & HBc & _). by apply (HBc h q HB Hc). }
+      destruct Hl as (_ & _ & _ & HBc & _). by apply (HBc h q HB Hc). }
   assert (Hsame : x' = (hosts, hist) →
      XB B R x' ∧ data_mono x'.2 hosts x'.1 ∧
      (x'.2 = hist ∨ ∃ (hs : list hentry) (e : hentry), hist !! q_shard q = Some hs ∧ hs ≠ [] ∧ x'.2 = <[q_shard q := e :: hs]> hist ∧ e.1 = cur_version hs + 1 ∧
@@ -356,7 +356,7 @@ Proof.
     - rewrite H2. by apply grows_data.
     - by left. }
   (* a change request with a current fence *)
-  pose proof Hl as [Hlq _]. destruct Hl as [(Hch & Hf & HBc & Hadd & Hdel) HRq]. set (s := q_shard q) in *.
+  pose proof Hl as [Hlq _]. destruct Hl as [(Hch & Hf & _ & HBc & Hadd & Hdel) HRq]. set (s := q_shard q) in *.
   unfold exec_req in E. cbn [fst snd] in E. rewrite Hfh in E. fold s in E.
   (* the common part of the two applied cases *)
   assert (Happly : ∀ e0 hs0 e reps',
@@ -585,7 +585,7 @@ Record MendP (Bx : N → request → Prop) (st : fstate) : Prop := mkMendP {
 (* mid-round: no CREATE request is pending for a shard whose history is ahead of Drummer's view *)
 Definition nocreate (Bx : N → request → Prop) (st : fstate) : Prop :=
   ∀ s h c v M M' x rest, f_hist st !! s = Some h → d_view (f_db st) !! s = Some c → behind h c v M M' x rest →
-    ∀ a q, Bx a q → is_create q = true → q_shard q ≠ s.
+    s ≠ 0 ∧ ∀ a q, Bx a q → is_create q = true → q_shard q ≠ s.
 
 Lemma mp_xb Bx d hosts hist seen extra :
   LI d hosts hist seen extra → MendP Bx (mkF d hosts hist seen) → XB Bx (vready d) (hosts, hist).
@@ -678,7 +678,7 @@ Proof.
     destruct (Hsh s h' Hh') as [Hold|(-> & hs & e & Hs & Hne & -> & Hx2 & He & Hfq & Hl & HR & Hkind & Hknow)].
     + destruct (mp_behind _ _ HP s h' c v M M' x rest Hold Hc Hb) as (Hst & Hxrun & a0 & fh0 & rid0 & lr0 & Hfh0 & Hk0 & Hrun0 & Hver0).
       cbn [f_db f_hosts f_hist] in Hst, Hxrun, Hfh0.
-      assert (Hnoc : is_create q = true → q_shard q ≠ s) by (intros Hcq; by apply (Hnc s h' c v M M' x rest Hold Hc Hb h q HB Hcq)).
+      assert (Hnoc : is_create q = true → q_shard q ≠ s) by (intros Hcq; by apply (proj2 (Hnc s h' c v M M' x rest Hold Hc Hb) h q HB Hcq)).
       assert (Hsame : x'.2 !! s = hist !! s) by congruence.
       split; [done|]. split.
       * intros HMx a fh' lr' Hfh' Hk' . destruct (lr_running lr') eqn:Er; [|done]. exfalso.
@@ -714,7 +714,7 @@ Proof.
              destruct (decide (x = xx)) as [?|Hne']; [done|]. exfalso.
              assert (Hl1 : <[xx := t]> M !! x = None) by (by rewrite lookup_insert_ne).
              rewrite HM', lookup_insert in Hl1. done. }
-           destruct Hl as (_ & _ & _ & Hadd & _). destruct (Hadd Hia) as (x0 & t0 & Hm0 & _ & _ & _ & _ & _ & _ & Hnodata).
+           destruct Hl as (_ & _ & _ & _ & Hadd & _). destruct (Hadd Hia) as (x0 & t0 & Hm0 & _ & _ & _ & _ & _ & _ & Hnodata).
            assert (x0 = xx) as -> by congruence.
            destruct (Hkeys a fh' (q_shard q, xx) Hfh' ltac:(by eexists)) as [(fh0 & Hfh0 & [lr0 Hk0])|[Hcq _]].
            ++ by rewrite (Hnodata a fh0 Hfh0) in Hk0.
@@ -728,10 +728,10 @@ Proof.
   - apply (hm_home _ _ HH').
   - apply (hm_nostray _ _ HH').
   - (* nocreate *)
-    intros s h' c v M M' x rest Hh' Hc Hb a0 q0 HB0 Hcq0. cbn [f_hist f_db] in Hh', Hc.
+    intros s h' c v M M' x rest Hh' Hc Hb. cbn [f_hist f_db] in Hh', Hc.
     destruct (Hsh s h' Hh') as [Hold|(-> & hs & e & Hs & Hne & -> & Hx2 & He & Hfq & Hl & HR & Hkind & Hknow)].
-    + by apply (Hnc s h' c v M M' x rest Hold Hc Hb a0 q0).
-    + destruct Hl as (_ & _ & HBc & _). by apply (HBc a0 q0).
+    + by apply (Hnc s h' c v M M' x rest Hold Hc Hb).
+    + destruct Hl as (_ & _ & [_ Hsnz] & HBc & _). split; [done|]. intros a0 q0. by apply (HBc a0 q0).
 Qed.
 
 (* exec_req touches the replica table of the executing NodeHost only *)
@@ -793,7 +793,7 @@ Qed.
 (* weakening: fewer pending requests; NodeHost records that differ in the queue only *)
 Lemma lchange_shrink (B B' : N → request → Prop) hosts hist a q :
   (∀ a' q', B' a' q' → B a' q') → lchange B hosts hist a q → lchange B' hosts hist a q.
-Proof. intros Hsub (H1 & H2 & H3 & H4). split; [done|]. split; [done|]. split; [|done]. intros a' q' HB'. apply (H3 a' q'). by apply Hsub. Qed.
+Proof. intros Hsub (H1 & H2 & H2' & H3 & H4). split; [done|]. split; [done|]. split; [done|]. split; [|done]. intros a' q' HB'. apply (H3 a' q'). by apply Hsub. Qed.
 
 Lemma mp_shrink (B B' : N → request → Prop) st : (∀ a q, B' a q → B a q) → MendP B st → MendP B' st.
 Proof.
@@ -802,7 +802,7 @@ Proof.
 Qed.
 
 Lemma nocreate_shrink (B B' : N → request → Prop) st : (∀ a q, B' a q → B a q) → nocreate B st → nocreate B' st.
-Proof. intros Hsub Hnc s h c v M M' x rest Hh Hc Hb a q HB'. apply (Hnc s h c v M M' x rest Hh Hc Hb a q). by apply Hsub. Qed.
+Proof. intros Hsub Hnc s h c v M M' x rest Hh Hc Hb. destruct (Hnc s h c v M M' x rest Hh Hc Hb) as [? Hn]. split; [done|]. intros a q HB'. apply (Hn a q). by apply Hsub. Qed.
 
 Lemma mp_same_reps (B : N → request → Prop) d hosts hosts' hist seen :
   (∀ b, match hosts !! b with
@@ -835,59 +835,79 @@ Qed.
 
 (** * Part 3: the events of a healthy round *)
 (* the class at a round boundary, and in the middle of a round *)
-Definition MendB (st : fstate) : Prop := LoopInv st ∧ MendP (boxed_at st) st.
-Definition MendX (st : fstate) : Prop := MendB st ∧ nocreate (boxed_at st) st.
+(* the requests that will be executed: in Requests or in a NodeHost queue.  (In a healthy round nothing is delivered
+   from Outgoing: the copies kept there are replaced at the NodeHost's next report.) *)
+Definition nonout (st : fstate) (a : N) (q : request) : Prop :=
+  (∃ qs, d_requests (f_db st) !! a = Some qs ∧ q ∈ qs) ∨ (∃ fh, f_hosts st !! a = Some fh ∧ q ∈ fh_queue fh).
+Definition out_hosts (st : fstate) : Prop := ∀ a, is_Some (d_outgoing (f_db st) !! a) → is_Some (f_hosts st !! a).
+
+Definition MendB (st : fstate) : Prop := LoopInv st ∧ MendP (nonout st) st ∧ out_hosts st.
+Definition MendX (st : fstate) : Prop := MendB st ∧ nocreate (nonout st) st.
 
 Section MendB.
 Variable P : params.
 
 Lemma mendx_exec st a st' :
-  MendX st → fstep P st (EExec a true) = FOk st' → MendX st' ∧ f_db st' = f_db st.
+  MendX st → fstep P st (EExec a true) = FOk st' →
+  MendX st' ∧ f_db st' = f_db st ∧
+  (∀ b, match f_hosts st !! b with
+        | Some fh => ∃ fh', f_hosts st' !! b = Some fh' ∧ fh_queue fh' = (if decide (b = a) then [] else fh_queue fh)
+        | None => f_hosts st' !! b = None end).
 Proof.
-  destruct st as [d hosts hist seen]. intros [[HI HP] Hnc]. cbn [fstep f_db f_hosts f_hist f_seen].
+  destruct st as [d hosts hist seen]. intros [(HI & HP & Hoh) Hnc]. cbn [fstep f_db f_hosts f_hist f_seen].
   destruct (hosts !! a) as [fh|] eqn:Ha; [|done]. destruct (mp_hosts _ _ HP a fh Ha) as [Hup Hout]. cbn [f_hosts] in Hup. rewrite Hup.
   set (hosts0 := <[a := mkFHost true (fh_region fh) (fh_reps fh) [] (fh_out fh)]> hosts).
   destruct (exec_all a true (hosts0, hist) (fh_queue fh)) as [x|] eqn:Ex; [|done]. intros [= <-].
   set (st := mkF d hosts hist seen) in *.
   pose proof (exec_start st a fh HI Ha) as HI0. cbn [f_db f_hosts f_hist f_seen st] in HI0. fold hosts0 in HI0.
-  assert (HP0 : MendP (boxed_at st) (mkF d hosts0 hist seen)).
+  assert (HP0 : MendP (nonout st) (mkF d hosts0 hist seen)).
   { apply (mp_same_reps _ d hosts hosts0 hist seen); [|exact HP]. intros b. unfold hosts0. destruct (decide (b = a)) as [->|Hne].
     - rewrite Ha, lookup_insert. eexists. split; [done|]. cbn. done.
     - rewrite lookup_insert_ne by done. destruct (hosts !! b) as [fhb|] eqn:Hb; [|done]. exists fhb. split; [done|]. split; [done|].
       apply (mp_hosts _ _ HP b fhb Hb). }
-  destruct (mp_exec_all (boxed_at st) d seen a (fh_queue fh) hosts0 hist x HI0 HP0 Hnc) as (HI' & HP' & Hnc'); [| |done|].
-  { intros q Hq. right; right. exists fh. done. }
+  destruct (mp_exec_all (nonout st) d seen a (fh_queue fh) hosts0 hist x HI0 HP0 Hnc) as (HI' & HP' & Hnc'); [| |done|].
+  { intros q Hq. right. exists fh. done. }
   { unfold hosts0. rewrite lookup_insert. by eexists. }
   pose proof (exec_all_frame a true (fh_queue fh) (hosts0, hist) x Ex) as Hfr. cbn [fst] in Hfr.
-  assert (Hsub : ∀ b q, boxed_at (mkF d x.1 x.2 seen) b q → boxed_at st b q).
-  { intros b q [Hq|[Hq|(fh' & Hb & Hin)]]; [by left|by right; left|]. cbn [f_hosts] in Hb. specialize (Hfr b). unfold hosts0 in Hfr.
-    destruct (decide (b = a)) as [->|Hne].
-    - rewrite lookup_insert in Hfr. destruct Hfr as (fh2 & Hfh2 & Hq2 & _). assert (fh2 = fh') as -> by congruence. rewrite Hq2 in Hin. by apply elem_of_nil in Hin.
-    - rewrite lookup_insert_ne in Hfr by done. destruct (hosts !! b) as [fhb|] eqn:Hbb; [|congruence]. destruct Hfr as (fh2 & Hfh2 & Hq2 & _).
-      assert (fh2 = fh') as -> by congruence. right; right. exists fhb. split; [done|]. by rewrite <- Hq2. }
-  split; [|done]. split; [split|].
+  assert (Hq : ∀ b, match hosts !! b with
+        | Some fhb => ∃ fh', x.1 !! b = Some fh' ∧ fh_queue fh' = (if decide (b = a) then [] else fh_queue fhb)
+        | None => x.1 !! b = None end).
+  { intros b. specialize (Hfr b). unfold hosts0 in Hfr. destruct (decide (b = a)) as [->|Hne].
+    - rewrite lookup_insert in Hfr. rewrite Ha. destruct Hfr as (fh2 & Hfh2 & Hq2 & _). by exists fh2.
+    - rewrite lookup_insert_ne in Hfr by done. destruct (hosts !! b) as [fhb|]; [|done]. destruct Hfr as (fh2 & Hfh2 & Hq2 & _). by exists fh2. }
+  assert (Hsub : ∀ b q, nonout (mkF d x.1 x.2 seen) b q → nonout st b q).
+  { intros b q [Hq0|(fh' & Hb & Hin)]; [by left|]. cbn [f_hosts] in Hb. specialize (Hq b).
+    destruct (hosts !! b) as [fhb|] eqn:Hbb; [|congruence]. destruct Hq as (fh2 & Hfh2 & Hq2). assert (fh2 = fh') as -> by congruence.
+    rewrite Hq2 in Hin. destruct (decide (b = a)); [by apply elem_of_nil in Hin|]. right. by exists fhb. }
+  split; [|split; [done|exact Hq]]. split; [split; [|split]|].
   - exact HI'.
-  - by apply (mp_shrink (boxed_at st)).
-  - by apply (nocreate_shrink (boxed_at st)).
+  - by apply (mp_shrink (nonout st)).
+  - intros b Hb. specialize (Hq b). cbn [f_hosts]. destruct (Hoh b Hb) as [fhb Hfhb]. cbn [st f_hosts] in Hfhb. rewrite Hfhb in Hq.
+    destruct Hq as (fh2 & -> & _). by eexists.
+  - by apply (nocreate_shrink (nonout st)).
 Qed.
 
 Lemma mendx_tick st st' :
   MendX st → fstep P st ETick = FOk st' →
   MendX st' ∧ f_db st' = set_tick (f_db st) (d_tick (f_db st) + p_step P) ∧ f_hosts st' = f_hosts st ∧ f_hist st' = f_hist st.
 Proof.
-  intros [[HI HP] Hnc] E. pose proof (step_tick P st st' HI E) as HI'. pose proof (fstep_time_ok P st ETick st' E (mp_timeok _ _ HP)) as Hto.
+  intros [(HI & HP & Hoh) Hnc] E. pose proof (step_tick P st st' HI E) as HI'. pose proof (fstep_time_ok P st ETick st' E (mp_timeok _ _ HP)) as Hto.
   cbn [fstep] in E. unfold db_step in E. rewrite (li_failed _ _ _ _ _ HI) in E. unfold apply_tick in E.
   cbn [d_deadline set_tick] in E. rewrite (li_deadline _ _ _ _ _ HI) in E. cbn [N.ltb andb] in E. injection E as <-.
-  split; [|done]. split; [split; [exact HI'|]|].
+  split; [|done]. split; [split; [exact HI'|split]|].
   - destruct HP. split; cbn [set_db f_db f_hosts f_hist f_seen] in *; try done. cbn. lia.
+  - exact Hoh.
   - exact Hnc.
 Qed.
 
 Lemma mendx_learn st a s r v st' :
   MendX st → is_Some (cur_members (hist_of (f_hist st) s) !! r) → fstep P st (ELearn a s r v) = FOk st' →
-  MendX st' ∧ f_db st' = f_db st ∧ f_hist st' = f_hist st.
+  MendX st' ∧ f_db st' = f_db st ∧ f_hist st' = f_hist st ∧
+  (∀ b, match f_hosts st !! b with
+        | Some fhb => ∃ fh', f_hosts st' !! b = Some fh' ∧ fh_queue fh' = fh_queue fhb
+        | None => f_hosts st' !! b = None end).
 Proof.
-  intros [[HI HP] Hnc] Hmem E. pose proof (step_inv P st (ELearn a s r v) st' HI I E) as HI'.
+  intros [(HI & HP & Hoh) Hnc] Hmem E. pose proof (step_inv P st (ELearn a s r v) st' HI I E) as HI'.
   destruct st as [d hosts hist seen]. cbn [fstep f_db f_hosts f_hist f_seen] in *.
   destruct (hosts !! a) as [fh|] eqn:Ha; [|done]. destruct (fh_reps fh !! (s, r)) as [lr|] eqn:Ek; [|done].
   destruct (fh_up fh && lr_running lr && (lr_ver lr <? v) && _) eqn:Econd; [|done]. injection E as <-.
@@ -907,11 +927,16 @@ Proof.
   { intros b fhb'. destruct (decide (b = a)) as [->|Hne]; [rewrite lookup_insert; intros [= <-]; by left|rewrite lookup_insert_ne by done; by right]. }
   assert (Hkeys : ∀ k, is_Some (reps' !! k) ↔ is_Some (fh_reps fh !! k)).
   { intros k. unfold reps'. destruct (decide (k = (s, r))) as [->|Hne]; [rewrite lookup_insert, Ek; split; intros _; by eexists|by rewrite lookup_insert_ne]. }
-  assert (Hsub : ∀ b q, boxed_at st' b q → boxed_at st b q).
-  { intros b q [Hq|[Hq|(fhb' & Hb & Hin)]]; [by left|by right; left|]. right; right. cbn [st' f_hosts] in Hb.
+  assert (Hsub : ∀ b q, nonout st' b q → nonout st b q).
+  { intros b q [Hq|(fhb' & Hb & Hin)]; [by left|]. right. cbn [st' f_hosts] in Hb.
     destruct (Hl' b fhb' Hb) as [[-> ->]|[Hne Hb0]]; [exists fh; done|by exists fhb']. }
-  split; [|done]. split; [split; [exact HI'|]|by apply (nocreate_shrink (boxed_at st))].
-  apply (mp_shrink (boxed_at st)); [exact Hsub|].
+  split; [|split; [done|split; [done|]]].
+  2:{ intros b. cbn [f_hosts]. destruct (decide (b = a)) as [->|Hne]; [rewrite Ha, lookup_insert; by eexists|].
+      rewrite lookup_insert_ne by done. destruct (hosts !! b) as [fhb|]; [by exists fhb|done]. }
+  split; [split; [exact HI'|split]|by apply (nocreate_shrink (nonout st))].
+  2:{ intros b Hb. destruct (Hoh b Hb) as [fhb Hfhb]. cbn [st' f_hosts f_db] in *.
+      destruct (decide (b = a)) as [->|Hne]; [rewrite lookup_insert; by eexists|rewrite lookup_insert_ne by done; by eexists]. }
+  apply (mp_shrink (nonout st)); [exact Hsub|].
   destruct (mp_hosts _ _ HP a fh Ha) as [_ Hout]. cbn [f_hosts] in Hout.
   destruct HP. split; cbn [st' f_db f_hosts f_hist f_seen] in *; try done.
   - intros b fhb' Hb. destruct (Hl' b fhb' Hb) as [[-> ->]|[Hne Hb0]]; [done|by apply (mp_hosts0 b)].
@@ -947,7 +972,7 @@ Proof.
 Qed.
 (* at most one replica of a shard runs on a NodeHost *)
 Lemma mendb_one_running st a fh s r1 r2 l1 l2 :
-  LoopInv st → MendP (boxed_at st) st → f_hosts st !! a = Some fh → fh_reps fh !! (s, r1) = Some l1 → fh_reps fh !! (s, r2) = Some l2 →
+  LoopInv st → MendP (nonout st) st → f_hosts st !! a = Some fh → fh_reps fh !! (s, r1) = Some l1 → fh_reps fh !! (s, r2) = Some l2 →
   lr_running l1 = true → lr_running l2 = true →
   (∀ h, f_hist st !! s = Some h → cur_version h ≤ lr_ver l1 ∧ cur_version h ≤ lr_ver l2) → r1 = r2.
 Proof.
@@ -963,7 +988,7 @@ Qed.
 
 (* the entries of a report: which are complete *)
 Lemma mendb_info_complete st a fh plog ci :
-  LoopInv st → MendP (boxed_at st) st → f_hosts st !! a = Some fh → ci ∈ rp_infos (host_report (f_db st) (f_hist st) a fh plog) → complete ci = true →
+  LoopInv st → MendP (nonout st) st → f_hosts st !! a = Some fh → ci ∈ rp_infos (host_report (f_db st) (f_hist st) a fh plog) → complete ci = true →
   ∃ rid lr h c v M M' x rest, fh_reps fh !! (si_shard ci, rid) = Some lr ∧ lr_running lr = true ∧ si_replica ci = rid ∧
     f_hist st !! si_shard ci = Some h ∧ d_view (f_db st) !! si_shard ci = Some c ∧ behind h c v M M' x rest ∧
     lr_ver lr = v + 1 ∧ si_cci ci = v + 1.
@@ -984,7 +1009,7 @@ Proof.
 Qed.
 
 Lemma mendb_n_complete st a fh plog s :
-  LoopInv st → MendP (boxed_at st) st → f_hosts st !! a = Some fh → (n_complete s (rp_infos (host_report (f_db st) (f_hist st) a fh plog)) ≤ 1)%nat.
+  LoopInv st → MendP (nonout st) st → f_hosts st !! a = Some fh → (n_complete s (rp_infos (host_report (f_db st) (f_hist st) a fh plog)) ≤ 1)%nat.
 Proof.
   intros HI HA Ha. unfold n_complete.
   set (l := filter (λ ci, complete_for s ci = true) (rp_infos (host_report (f_db st) (f_hist st) a fh plog))).
@@ -1024,11 +1049,11 @@ Qed.
 
 (** * one host reports *)
 Lemma mendb_report st a fh plog :
-  LoopInv st → MendP (boxed_at st) st → f_hosts st !! a = Some fh →
-  ∃ st', steps P st [ESnap a plog; EDeliver a false] = Some st' ∧ (LoopInv st' ∧ MendP (boxed_at st') st') ∧
+  LoopInv st → MendP (nonout st) st → f_hosts st !! a = Some fh →
+  ∃ st', steps P st [ESnap a plog; EDeliver a false] = Some st' ∧ (LoopInv st' ∧ MendP (nonout st') st') ∧
     (∀ a', a' ≠ a → d_outgoing (f_db st') !! a' = d_outgoing (f_db st) !! a') ∧
     d_outgoing (f_db st') !! a = d_requests (f_db st) !! a ∧
-    (∀ b q, boxed_at st' b q → boxed_at st b q) ∧
+    (∀ b q, nonout st' b q → nonout st b q) ∧
     f_hist st' = f_hist st ∧ f_seen st' = f_seen st ∧
     d_tick (f_db st') = d_tick (f_db st) ∧ d_shards (f_db st') = d_shards (f_db st) ∧
     d_requests (f_db st') = delete a (d_requests (f_db st)) ∧
@@ -1195,16 +1220,15 @@ Proof.
         rewrite decide_True by done. cbn. rewrite Hver, Hcv. left.
       + cbn [stamp rp_infos]. unfold r, host_report. cbn [rp_infos]. apply elem_of_list_fmap. exists ((s, rid), lr). split; [done|].
         apply elem_of_list_filter. split; [done|]. unfold sorted_reps. rewrite merge_sort_Permutation. by apply elem_of_map_to_list. }
-  assert (Hsub2 : ∀ b q, boxed_at st2 b q → boxed_at st b q).
-  { intros b q Hq. rewrite Hst2 in Hq. unfold boxed_at in Hq |- *. cbn [f_db f_hosts] in Hq.
-    destruct Hq as [(qs & Hl & Hin)|[(qs & Hl & Hin)|(fhb & Hb & Hin)]].
+  assert (Hsub2 : ∀ b q, nonout st2 b q → nonout st b q).
+  { intros b q Hq. rewrite Hst2 in Hq. unfold nonout in Hq |- *. cbn [f_db f_hosts] in Hq.
+    destruct Hq as [(qs & Hl & Hin)|(fhb & Hb & Hin)].
     + left. exists qs. split; [by apply F7|done].
-    + destruct (F8 _ _ Hl) as [Ho|Ho]; [right; left|left]; eauto.
     + destruct (decide (b = a)) as [->|Hne].
       * rewrite lookup_insert in Hb. injection Hb as <-. cbn [fh_queue] in Hin. apply elem_of_app in Hin as [Hin|Hin].
-        -- right; right. eauto.
+        -- right. eauto.
         -- destruct (d_requests (f_db st) !! a) as [qs|] eqn:Eq; [|by apply elem_of_nil in Hin]. left. eauto.
-      * rewrite lookup_insert_ne in Hb by done. right; right. eauto. }
+      * rewrite lookup_insert_ne in Hb by done. right. eauto. }
   split.
   { split; [exact HI2|]. split.
     - eapply fstep_time_ok; [exact E2|]. eapply fstep_time_ok; [exact E1|]. apply (mp_timeok _ _ HC).
@@ -1214,7 +1238,7 @@ Proof.
     - intros a0 fh0 H0. destruct (Hrepsame a0 fh0 H0) as (_ & _ & _ & ? & ?). done.
     - cbn [st2 f_db]. rewrite F5. exact Hkill'.
     - intros b q Hq. destruct (mp_boxes _ _ HC b q (Hsub2 b q Hq)) as [?|[Hl HR]]; [by left|right]. split.
-      + apply (lchange_shrink (boxed_at st)); [exact Hsub2|]. rewrite Hst2. cbn [f_hosts f_hist].
+      + apply (lchange_shrink (nonout st)); [exact Hsub2|]. rewrite Hst2. cbn [f_hosts f_hist].
         apply (lchange_frame _ (f_hosts st) _ (f_hist st) (f_hist st)); [done| | |done].
         * intros a0 [fh0 H0]. destruct (decide (a0 = a)) as [->|Hne]; [rewrite lookup_insert; by eexists|rewrite lookup_insert_ne by done; by eexists].
         * intros a0 fh' k H0 Hk _. destruct (decide (a0 = a)) as [->|Hne].
@@ -1338,11 +1362,11 @@ Qed.
 
 (** * all hosts report *)
 Lemma mendb_reports (plogs : N → bool) (l : list N) : ∀ st,
-  LoopInv st → MendP (boxed_at st) st → NoDup l → (∀ a, a ∈ l → is_Some (f_hosts st !! a)) →
-  ∃ st', steps P st (l ≫= λ a, [ESnap a (plogs a); EDeliver a false]) = Some st' ∧ (LoopInv st' ∧ MendP (boxed_at st') st') ∧
+  LoopInv st → MendP (nonout st) st → NoDup l → (∀ a, a ∈ l → is_Some (f_hosts st !! a)) →
+  ∃ st', steps P st (l ≫= λ a, [ESnap a (plogs a); EDeliver a false]) = Some st' ∧ (LoopInv st' ∧ MendP (nonout st') st') ∧
     (∀ a, a ∈ l → d_outgoing (f_db st') !! a = d_requests (f_db st) !! a) ∧
     (∀ a, a ∉ l → d_outgoing (f_db st') !! a = d_outgoing (f_db st) !! a) ∧
-    (∀ b q, boxed_at st' b q → boxed_at st b q) ∧
+    (∀ b q, nonout st' b q → nonout st b q) ∧
     f_hist st' = f_hist st ∧ f_seen st' = f_seen st ∧
     d_tick (f_db st') = d_tick (f_db st) ∧ d_shards (f_db st') = d_shards (f_db st) ∧
     (∀ a fh, a ∈ l → f_hosts st !! a = Some fh → ∃ fh', f_hosts st' !! a = Some fh' ∧ fh_reps fh' = fh_reps fh) ∧
@@ -1418,3 +1442,629 @@ Proof.
   exists h2. split; [done|]. split; congruence.
 Qed.
 
+
+(** * the phases of a round *)
+Lemma steps_pres (Q : fstate → Prop) evs :
+  (∀ st ev st', ev ∈ evs → Q st → fstep P st ev = FOk st' → Q st') → ∀ st st', Q st → steps P st evs = Some st' → Q st'.
+Proof.
+  induction evs as [|ev evs IH]; intros Hstep st st' HQ Hs; cbn [steps] in Hs; [by injection Hs as <-|].
+  assert (Hstep' : ∀ st ev0 st', ev0 ∈ evs → Q st → fstep P st ev0 = FOk st' → Q st') by (intros ? ? ? Hin; apply Hstep; by right).
+  destruct (fstep P st ev) as [st1| |] eqn:E; [|by apply (IH Hstep' st st')|done].
+  apply (IH Hstep' st1 st'); [|done]. apply (Hstep st ev st1); [left|done|done].
+Qed.
+
+Lemma mendx_execs (l : list N) : ∀ st st',
+  MendX st → steps P st ((λ a, EExec a true) <$> l) = Some st' →
+  MendX st' ∧ f_db st' = f_db st ∧
+  (∀ b, match f_hosts st !! b with
+        | Some fh => ∃ fh', f_hosts st' !! b = Some fh' ∧ fh_queue fh' = (if decide (b ∈ l) then [] else fh_queue fh)
+        | None => f_hosts st' !! b = None end).
+Proof.
+  induction l as [|a l IH]; intros st st' HX Hs.
+  { cbn in Hs. injection Hs as <-. split; [done|]. split; [done|]. intros b. destruct (f_hosts st !! b) as [fh|]; [|done]. exists fh. split; [done|].
+    rewrite decide_False; [done|]. intros Hin. by apply elem_of_nil in Hin. }
+  rewrite fmap_cons in Hs. cbn [steps] in Hs. destruct (fstep P st (EExec a true)) as [st1| |] eqn:E1; [| |done].
+  - destruct (mendx_exec st a st1 HX E1) as (HX1 & Hd1 & Hq1). destruct (IH st1 st' HX1 Hs) as (HX' & Hd' & Hq').
+    split; [done|]. split; [congruence|]. intros b. specialize (Hq1 b). specialize (Hq' b).
+    destruct (f_hosts st !! b) as [fh|].
+    + destruct Hq1 as (fh1 & Hfh1 & Hqq1). rewrite Hfh1 in Hq'. destruct Hq' as (fh' & Hfh' & Hqq'). exists fh'. split; [done|].
+      rewrite Hqq'. destruct (decide (b = a)) as [->|Hne].
+      * rewrite (decide_True (P := a ∈ a :: l)) by left. by destruct (decide (a ∈ l)).
+      * destruct (decide (b ∈ l)) as [Hin|Hnin]; [rewrite decide_True by (by right); done|].
+        rewrite decide_False; [done|]. intros Hin. apply elem_of_cons in Hin as [?|?]; done.
+    + by rewrite Hq1 in Hq'.
+  - (* no such NodeHost *)
+    destruct (IH st st' HX Hs) as (HX' & Hd' & Hq'). split; [done|]. split; [done|]. intros b. specialize (Hq' b).
+    destruct (f_hosts st !! b) as [fh|] eqn:Hb; [|done]. destruct Hq' as (fh' & Hfh' & Hqq'). exists fh'. split; [done|]. rewrite Hqq'.
+    assert (b ≠ a).
+    { intros ->. cbn [fstep] in E1. rewrite Hb in E1. destruct HX as [(_ & HP & _) _]. destruct (mp_hosts _ _ HP a fh Hb) as [Hup _]. rewrite Hup in E1.
+      by destruct (exec_all _ _ _ _). }
+    destruct (decide (b ∈ l)) as [Hin|Hnin]; [rewrite decide_True by (by right); done|].
+    rewrite decide_False; [done|]. intros Hin. apply elem_of_cons in Hin as [?|?]; done.
+Qed.
+
+Lemma mendx_learns st st' :
+  MendX st → steps P st (catch_up_events st) = Some st' → MendX st' ∧ f_db st' = f_db st ∧ f_hist st' = f_hist st ∧
+  (∀ b, match f_hosts st !! b with
+        | Some fhb => ∃ fh', f_hosts st' !! b = Some fh' ∧ fh_queue fh' = fh_queue fhb
+        | None => f_hosts st' !! b = None end).
+Proof.
+  intros HX Hs.
+  apply (steps_pres (λ st0, MendX st0 ∧ f_db st0 = f_db st ∧ f_hist st0 = f_hist st ∧
+           (∀ b, match f_hosts st !! b with
+                 | Some fhb => ∃ fh', f_hosts st0 !! b = Some fh' ∧ fh_queue fh' = fh_queue fhb
+                 | None => f_hosts st0 !! b = None end)) (catch_up_events st)) with (st := st); [| |done].
+  - intros st0 ev st1 Hev (HX0 & Hd0 & Hh0 & Hf0) E. apply catch_up_members in Hev as (a & s & r & v & -> & Hm).
+    rewrite <- Hh0 in Hm. destruct (mendx_learn st0 a s r v st1 HX0 Hm E) as (HX1 & Hd1 & Hh1 & Hf1). split; [done|]. split; [congruence|]. split; [congruence|].
+    intros b. specialize (Hf0 b). specialize (Hf1 b). destruct (f_hosts st !! b) as [fhb|].
+    + destruct Hf0 as (fh0 & Hfh0 & Hq0). rewrite Hfh0 in Hf1. destruct Hf1 as (fh1 & Hfh1 & Hq1). exists fh1. split; [done|]. congruence.
+    + by rewrite Hf0 in Hf1.
+  - split; [done|]. split; [done|]. split; [done|]. intros b. destruct (f_hosts st !! b) as [fhb|]; [by exists fhb|done].
+Qed.
+
+Lemma mendx_ticks n : ∀ st st',
+  MendX st → steps P st (replicate n ETick) = Some st' →
+  MendX st' ∧ f_db st' = set_tick (f_db st) (d_tick (f_db st) + N.of_nat n * p_step P) ∧ f_hosts st' = f_hosts st ∧ f_hist st' = f_hist st.
+Proof.
+  induction n as [|n IH]; intros st st' HX Hs; cbn [replicate steps] in Hs.
+  - injection Hs as <-. split; [done|]. split; [|done]. destruct st as [d ? ? ?]. cbn. destruct d. unfold set_tick. cbn. f_equal. lia.
+  - destruct (fstep P st ETick) as [st1| |] eqn:E1; [| |done].
+    + destruct (mendx_tick st st1 HX E1) as (HX1 & Hd1 & Hh1 & Hhi1). destruct (IH st1 st' HX1 Hs) as (HX' & Hd' & Hh' & Hhi').
+      split; [done|]. split; [|split; congruence].
+      rewrite Hd', Hd1. unfold set_tick. cbn [d_tick d_deadline d_failed d_shards d_kv d_view d_kill d_hosts d_info d_requests d_outgoing].
+      f_equal. rewrite Nat2N.inj_succ, N.mul_succ_l. lia.
+    + exfalso. cbn [fstep] in E1. by destruct (db_step P (f_db st) CTick).
+Qed.
+
+(** * histories only grow, one entry and one version at a time *)
+Lemma exec_req_hist h ccok x q x' : exec_req h ccok x q = Some x' → ∀ s, ∃ l, hist_of x'.2 s = l ++ hist_of x.2 s.
+Proof.
+  intros E s. assert (Hsame : ∃ l, hist_of x.2 s = l ++ hist_of x.2 s) by (by exists []).
+  assert (Hins : ∀ (hosts' : gmap N fhost) (e e0 : hentry) hs0, hist_of x.2 (q_shard q) = e0 :: hs0 →
+            ∃ l, hist_of (hosts', <[q_shard q := e :: e0 :: hs0]> x.2).2 s = l ++ hist_of x.2 s).
+  { intros hosts' e e0 hs0 Eh. cbn [snd]. destruct (decide (s = q_shard q)) as [->|Hne].
+    - exists [e]. unfold hist_of at 1. rewrite lookup_insert. cbn. by rewrite Eh.
+    - exists []. unfold hist_of. by rewrite lookup_insert_ne. }
+  unfold exec_req in E. destruct (x.1 !! h) as [fh|]; [|injection E as <-; exact Hsame].
+  destruct (q_type q).
+  - destruct (q_join q), (q_restore q); try done.
+    + destruct (fh_reps fh !! _); injection E as <-; [unfold start_existing; destruct (_ || _); exact Hsame|]. destruct (busy _ _); exact Hsame.
+    + destruct (fh_reps fh !! _); injection E as <-; [|exact Hsame]. unfold start_existing; destruct (_ || _); exact Hsame.
+    + destruct (fh_reps fh !! _); [done|]. injection E as <-. destruct (busy _ _); exact Hsame.
+  - destruct (q_members q); [done|]. injection E as <-. destruct (hist_of x.2 (q_shard q)) as [|e0 hs0] eqn:Eh; [exact Hsame|].
+    destruct (_ && _); [|exact Hsame]. by apply Hins.
+  - destruct (q_members q); [done|]. destruct (q_addrs q); [done|]. injection E as <-.
+    destruct (hist_of x.2 (q_shard q)) as [|e0 hs0] eqn:Eh; [exact Hsame|].
+    destruct (_ && _); [|exact Hsame]. by apply Hins.
+  - destruct (q_members q); [done|]. injection E as <-. destruct (fh_reps fh !! _) as [lr|]; [|exact Hsame]. destruct (lr_running lr); exact Hsame.
+Qed.
+
+Lemma exec_all_hist h ccok qs : ∀ x x', exec_all h ccok x qs = Some x' → ∀ s, ∃ l, hist_of x'.2 s = l ++ hist_of x.2 s.
+Proof.
+  induction qs as [|q qs IH]; intros x x' E s; cbn [exec_all] in E; [injection E as <-; by exists []|].
+  destruct (exec_req h ccok x q) as [x1|] eqn:E1; [|done].
+  destruct (exec_req_hist h ccok x q x1 E1 s) as [l1 H1]. destruct (IH x1 x' E s) as [l2 H2]. exists (l2 ++ l1). by rewrite H2, H1, app_assoc.
+Qed.
+
+Lemma execs_hist (l : list N) : ∀ st st', steps P st ((λ a, EExec a true) <$> l) = Some st' →
+  ∀ s, ∃ l0, hist_of (f_hist st') s = l0 ++ hist_of (f_hist st) s.
+Proof.
+  induction l as [|a l IH]; intros st st' Hs s; [cbn in Hs; injection Hs as <-; by exists []|].
+  rewrite fmap_cons in Hs. cbn [steps] in Hs. destruct (fstep P st (EExec a true)) as [st1| |] eqn:E1; [|by apply IH|done].
+  destruct (IH st1 st' Hs s) as [l2 H2]. cbn [fstep] in E1. destruct (f_hosts st !! a) as [fh|]; [|done]. destruct (fh_up fh); [|done].
+  destruct (exec_all _ _ _ _) as [x|] eqn:Ex; [|done]. injection E1 as <-. cbn [f_hist] in H2.
+  destruct (exec_all_hist _ _ _ _ _ Ex s) as [l1 H1]. cbn [snd] in H1. exists (l2 ++ l1). by rewrite H2, H1, app_assoc.
+Qed.
+
+Lemma hist_wf_app_version n (l h : list hentry) :
+  hist_wf n (l ++ h) → h ≠ [] → cur_version (l ++ h) = cur_version h + N.of_nat (length l).
+Proof.
+  induction l as [|e l IH]; intros Hw Hne; [cbn; lia|].
+  assert (Hne' : l ++ h ≠ []) by (destruct l; [done|done]).
+  cbn [app length] in *. destruct (l ++ h) as [|[v M] rest] eqn:El; [done|].
+  assert (Hv : e.1 = v + 1 ∧ hist_wf n ((v, M) :: rest)) by (inversion Hw; subst; done).
+  destruct Hv as [Hv Hw2]. specialize (IH Hw2 Hne). cbn [cur_version fst] in *. lia.
+Qed.
+
+(** * the leader schedules: the analysis of FleetMendProofs applies to the state "as Drummer sees it" *)
+Lemma LI_erase d d' hosts hosts' hist seen :
+  d_failed d' = d_failed d → d_deadline d' = d_deadline d → d_shards d' = d_shards d → d_view d' = d_view d →
+  d_hosts d' = d_hosts d → d_kill d' = d_kill d →
+  (∀ a fh', hosts' !! a = Some fh' → ∃ fh, hosts !! a = Some fh ∧ fh_reps fh' = fh_reps fh ∧ fh_out fh' = fh_out fh) →
+  (∀ q, in_box d' hosts' [] q → in_box d hosts [] q) →
+  LI d hosts hist seen [] → LI d' hosts' hist seen [].
+Proof.
+  intros E1 E2 E3 E4 E5 E6 Hh Hbox HI.
+  assert (Hsz : shard_size d' = shard_size d) by (unfold shard_size; by rewrite E3).
+  assert (Hreq : ∀ q, req_ok d' hist seen q ↔ req_ok d hist seen q) by (intros q; unfold req_ok; by rewrite E4, Hsz).
+  split.
+  - rewrite E1. apply (li_failed _ _ _ _ _ HI).
+  - rewrite E2. apply (li_deadline _ _ _ _ _ HI).
+  - rewrite Hsz. apply (li_hist _ _ _ _ _ HI).
+  - rewrite E4. apply (li_cover _ _ _ _ _ HI).
+  - rewrite E4. apply (li_view _ _ _ _ _ HI).
+  - unfold hosts_synced. rewrite E5, E4. apply (li_synced _ _ _ _ _ HI).
+  - intros a fh' k lr Ha Hk. destruct (Hh a fh' Ha) as (fh & Hfh & Hr & _). rewrite Hr in Hk. unfold rep_ok. rewrite E4.
+    exact (li_reps _ _ _ _ _ HI a fh k lr Hfh Hk).
+  - intros a fh' r Ha Hr. destruct (Hh a fh' Ha) as (fh & Hfh & _ & Ho). rewrite Ho in Hr.
+    eapply Forall_impl; [exact (li_out _ _ _ _ _ HI a fh r Hfh Hr)|]. intros ci Hci. unfold info_ok. rewrite E4. exact Hci.
+  - intros q Hq. apply Hreq, (li_reqs _ _ _ _ _ HI), Hbox, Hq.
+  - intros q q' Hq Hq'. apply (li_adds _ _ _ _ _ HI); by apply Hbox.
+  - rewrite E6. apply (li_kill _ _ _ _ _ HI).
+  - apply (li_seen _ _ _ _ _ HI).
+Qed.
+
+Definition eraseq (fh : fhost) : fhost := mkFHost (fh_up fh) (fh_region fh) (fh_reps fh) [] (fh_out fh).
+Definition erase_db (d : db) : db := set_outgoing (set_requests d ∅) ∅.
+(* the fleet as Drummer sees it at time T: no request pending *)
+Definition fict (st : fstate) (T : N) : fstate :=
+  mkF (erase_db (set_tick (f_db st) T)) (eraseq <$> f_hosts st) (f_hist st) (f_seen st).
+
+Lemma mendb_fict st T :
+  LoopInv st → MendP (nonout st) st →
+  (∀ s h c, f_hist st !! s = Some h → d_view (f_db st) !! s = Some c → s_cci c = cur_version h) →
+  time_ok (set_tick (f_db st) T) → 0 < T → Mend (fict st T).
+Proof.
+  intros HI HP Hcur Hto HT.
+  assert (Hl : ∀ a fh', (eraseq <$> f_hosts st) !! a = Some fh' → ∃ fh, f_hosts st !! a = Some fh ∧ fh' = eraseq fh).
+  { intros a fh'. rewrite lookup_fmap. destruct (f_hosts st !! a) as [fh|]; [|done]. cbn. intros [= <-]. by exists fh. }
+  destruct HP. split; cbn [fict f_db f_hosts f_hist f_seen].
+  - unfold LoopInv. cbn [fict f_db f_hosts f_hist f_seen]. apply (LI_erase (f_db st) _ (f_hosts st) _); try done.
+    + intros a fh' Ha. destruct (Hl a fh' Ha) as (fh & Hfh & ->). by exists fh.
+    + intros q [(a & qs & Hq & _)|[(a & qs & Hq & _)|[(a & fh' & Ha & Hin)|Hin]]].
+      * cbn in Hq. by rewrite lookup_empty in Hq.
+      * cbn in Hq. by rewrite lookup_empty in Hq.
+      * destruct (Hl a fh' Ha) as (fh & Hfh & ->). cbn in Hin. by apply elem_of_nil in Hin.
+      * by apply elem_of_nil in Hin.
+  - exact Hto.
+  - exact HT.
+  - exact mp_defined0.
+  - exact mp_viewdef0.
+  - intros a fh' Ha. destruct (Hl a fh' Ha) as (fh & Hfh & ->). cbn. by apply (mp_hosts0 a).
+  - exact mp_kill0.
+  - intros a q [(qs & Hq & _)|[(qs & Hq & _)|(fh' & Ha & Hin)]].
+    + cbn in Hq. by rewrite lookup_empty in Hq.
+    + cbn in Hq. by rewrite lookup_empty in Hq.
+    + cbn [fict f_hosts] in Ha. destruct (Hl a fh' Ha) as (fh & Hfh & ->). cbn in Hin. by apply elem_of_nil in Hin.
+  - intros s h Hh. destruct (mp_members0 s h Hh) as (c & Hc & _ & Hmem). exists c. split; [done|]. split; [by apply (Hcur s)|].
+    intros rid a Hm. destruct (Hmem rid a Hm) as (? & ? & fh & Hfh & Hdata). split; [done|]. split; [done|].
+    exists (eraseq fh). rewrite lookup_fmap, Hfh. split; [done|]. exact Hdata.
+  - exact mp_waiting0.
+  - exact mp_onejoin0.
+  - intros a fh' s rid lr h a' Ha Hk. destruct (Hl a fh' Ha) as (fh & Hfh & ->). cbn in Hk. by apply (mp_home0 a fh s rid lr h a').
+  - intros a fh' s rid lr Ha Hk. destruct (Hl a fh' Ha) as (fh & Hfh & ->). cbn in Hk. by apply (mp_nostray0 a fh s rid lr).
+Qed.
+
+(* what an allowed batch consists of, in a Mend state whose NodeHosts have reported: restores addressed to the member's
+   NodeHost, join-CREATEs for members the view shows as waiting, KILLs *)
+Lemma mend_batch_info st t b q :
+  Mend st → mfresh P st t → allowed P (ctx_of_db (f_db st)) (OBatch b) = true → q ∈ b →
+  (is_restore q = true ∧ q_join q = false ∧ ∃ h, f_hist st !! q_shard q = Some h ∧ cur_members h !! q_inst q = Some (q_raft q)) ∨
+  (good_join (f_hist st) (q_raft q) q ∧ ∃ c n, d_view (f_db st) !! q_shard q = Some c ∧ s_reps c !! q_inst q = Some n ∧ r_tick n = 0) ∨
+  is_kill q = true.
+Proof.
+  intros HC Hfr Hal Hq. pose proof (md_inv _ HC) as HI. set (C := ctx_of_db (f_db st)) in *.
+  destruct (batch_request_cases P C b q Hal Hq) as [Hk|(_ & c & qs & Hc & Hs & Hin & Hg & _)].
+  { right; right. by apply (kills_are_kill C). }
+  destruct (mready_entry P st t c HC Hfr Hc) as (h & sd & Hh & Hvc & _ & Hsd & _ & Hmv & Hrs & Hnone & Hcreate).
+  fold C in Hsd, Hrs, Hnone, Hcreate.
+  assert (Hcase : repair_action P C c = ANone ∨ (has_restore P C c = false ∧ repair_action P C c = ACreate sd)).
+  { destruct (sr_failed P C c) as [|n0 l0] eqn:Ef; [|left; apply Hnone; by left].
+    destruct (sr_wait P C c) as [|n1 l1] eqn:Ew; [left; apply Hnone; by right|]. right. by apply Hcreate. }
+  apply group_allowed_inv in Hg as [(_ & sd' & _ & Hok)|(Hnr & Hcases)].
+  - left. destruct (restore_group_inv P C c _ qs q Hok Hin) as ((Hcr & Hsh & _ & _ & _ & _ & Hj & Hre & _) & n & Hn & Hi & Hr).
+    rewrite Hrs in Hn. apply elem_sr_failed in Hn as [Hn _]. destruct (Hmv n Hn) as (_ & _ & _ & Hm).
+    split; [unfold is_restore; by rewrite Hcr, Hre|]. split; [done|]. exists h. rewrite Hsh, Hi, Hr. done.
+  - right; left. destruct Hcases as [[_ ->]|[(Ha & _)|[(sd' & Ha & q' & -> & Hok)|(Ha & _)]]]; [by apply elem_of_nil in Hin| | |];
+      try (destruct Hcase as [Hx|[_ Hx]]; congruence).
+    apply elem_of_list_singleton in Hin as ->. unfold join_req_ok in Hok. apply bool_decide_eq_true in Hok as [Hshape Hex].
+    destruct Hshape as (Hcr & Hsh & _ & _ & _ & _ & Hj & Hre & _). apply Exists_exists in Hex as (n & Hn & Hi & Hr).
+    apply elem_sr_wait in Hn as [Hn Hw]. destruct (Hmv n Hn) as (_ & _ & _ & Hm).
+    split.
+    + split; [done|]. split; [done|]. split; [done|]. exists h. rewrite Hsh, Hi, Hr. done.
+    + apply mvals_elem in Hn as [rid Hn]. destruct (li_view _ _ _ _ _ HI (s_id c) c Hvc) as (_ & _ & Hids). destruct (Hids rid n Hn) as [Hrid _].
+      exists c, n. rewrite Hsh, Hi. split; [done|]. split; [by rewrite Hrid|].
+      unfold replica_waiting in Hw. apply andb_true_iff in Hw as [Hz _]. by apply N.eqb_eq in Hz.
+Qed.
+
+Lemma nonout_qextra st a q : LoopInv st → nonout st a q → qextra (f_hist st) q.
+Proof.
+  intros HI Hq.
+  assert (Hbox : in_box (f_db st) (f_hosts st) [] q).
+  { destruct Hq as [(qs & Hl & Hin)|(fh & Hl & Hin)]; [left; eauto|right; right; left; eauto]. }
+  destruct (li_reqs _ _ _ _ _ HI q Hbox) as [_ Hreq].
+  assert (Hle : ∀ h M, f_hist st !! q_shard q = Some h → entry_at h (q_ccid q) = Some M → q_ccid q ≤ cur_version h).
+  { intros h M Hh HM. apply entry_at_Some in HM. apply (hist_wf_le _ _ (li_hist _ _ _ _ _ HI _ _ Hh) _ HM). }
+  split.
+  - intros Hch h Hh. unfold is_change, is_add, is_delete in Hch. destruct (q_type q); try done.
+    + destruct Hreq as (y & _ & Hr). destruct (Hr h Hh) as (M & HM & _). by apply (Hle h M).
+    + destruct Hreq as (x & t & _ & _ & _ & Hr). destruct (Hr h Hh) as [(M & HM & _) _]. by apply (Hle h M).
+  - intros Hk. unfold is_kill in Hk. destruct (q_type q); try done. destruct Hreq as (y & Hy & Hd). exists y. split; [done|].
+    intros h Hh. by destruct (Hd h Hh).
+Qed.
+
+Lemma mendx_schedule st1 st4 o st5 t T :
+  LoopInv st1 → MendP (nonout st1) st1 →
+  (∀ s h c, f_hist st1 !! s = Some h → d_view (f_db st1) !! s = Some c → s_cci c = cur_version h) →
+  (∀ s h rid a, f_hist st1 !! s = Some h → cur_members h !! rid = Some a → stamped (f_db st1) s rid →
+     ∃ hh, d_hosts (f_db st1) !! a = Some hh ∧ h_tick hh = t ∧ (s, rid) ∈ h_plog hh) →
+  MendX st4 → f_db st4 = set_tick (f_db st1) T → T - t ≤ p_ttl P →
+  (∀ s, ∃ l, hist_of (f_hist st4) s = l ++ hist_of (f_hist st1) s) →
+  (∀ a q, nonout st4 a q → f_hosts st4 !! a = None) →
+  fstep P st4 (ESchedule o) = FOk st5 →
+  ∃ b, o = OBatch b ∧ add_ids b = [] ∧ MendB st5 ∧ f_hist st5 = f_hist st4 ∧ f_hosts st5 = f_hosts st4 ∧
+       (∀ a q, nonout st5 a q → mharmless (f_hist st5) a q).
+Proof.
+  intros HI1 HP1 Hcur1 Hrep [(HI4 & HP4 & Hoh4) Hnc4] Hdb HT Hext Hnohost E.
+  cbn [fstep] in E. destruct (allowed P (ctx_of_db (f_db st4)) o) eqn:Hal; [|done].
+  (* the fleet as Drummer sees it *)
+  assert (HMF : Mend (fict st1 T)).
+  { apply mendb_fict; [done|done|done| |].
+    - rewrite <- Hdb. apply (mp_timeok _ _ HP4).
+    - pose proof (mp_time _ _ HP4) as Ht. rewrite Hdb in Ht. exact Ht. }
+  assert (Hfr : mfresh P (fict st1 T) t).
+  { split; [exact HT|]. intros s h0 rid a Hh0 Hm Hst. destruct (Hrep s h0 rid a Hh0 Hm Hst) as (hh & Hhh & Htk & Hpl). by exists hh. }
+  assert (Hal' : allowed P (ctx_of_db (f_db (fict st1 T))) o = true) by (rewrite Hdb in Hal; exact Hal).
+  destruct (mend_allowed P (fict st1 T) t o HMF Hfr Hal') as (b & -> & Hadds & _).
+  exists b. split; [done|]. split; [done|].
+  assert (Hfresh : fresh_ok st4 (ESchedule (OBatch b))).
+  { cbn. rewrite Hadds. split; [constructor|]. intros x Hx. by apply elem_of_nil in Hx. }
+  assert (E' : fstep P st4 (ESchedule (OBatch b)) = FOk st5) by (cbn [fstep]; by rewrite Hal).
+  pose proof (step_inv P st4 _ st5 HI4 Hfresh E') as HI5.
+  pose proof (fstep_time_ok P st4 _ st5 E' (mp_timeok _ _ HP4)) as Hto5.
+  assert (Hst5 : f_hosts st5 = f_hosts st4 ∧ f_hist st5 = f_hist st4 ∧
+                 f_db st5 = set_requests (f_db st4) (put_requests (d_requests (f_db st4)) b)).
+  { destruct b as [|q0 b0].
+    - injection E as <-. split; [done|]. split; [done|]. destruct st4 as [d ? ? ?]. cbn. by destruct d.
+    - rewrite (schedule_db P st4 (q0 :: b0) HI4 Hal) in E by (intros x Hx; rewrite Hadds in Hx; by apply elem_of_nil in Hx).
+      injection E as <-. done. }
+  destruct Hst5 as (Eh & Ehi & Ed).
+  (* every pending request is a leftover or a request for a current member *)
+  assert (Hall : ∀ a q, nonout st5 a q → mharmless (f_hist st4) a q ∧ qextra (f_hist st4) q).
+  { intros a q Hq. split; [|rewrite <- Ehi; by apply (nonout_qextra st5 a q)].
+    assert (Hold : nonout st4 a q → mharmless (f_hist st4) a q).
+    { intros Hq4. destruct (mp_boxes _ _ HP4 a q Hq4) as [[? _]|[(_ & _ & [[fh Hfh] _] & _) _]]; [done|]. rewrite (Hnohost a q Hq4) in Hfh. done. }
+    destruct Hq as [(qs & Hl & Hin)|(fh & Hl & Hin)]; [|apply Hold; right; exists fh; by rewrite <- Eh].
+    rewrite Ed in Hl. cbn [set_requests d_requests] in Hl. rewrite put_requests_lookup in Hl. case_bool_decide as Hm; [|apply Hold; left; eauto].
+    injection Hl as <-. unfold for_addr in Hin. apply elem_of_list_filter in Hin as [Hra Hin]. subst a.
+    destruct (mend_batch_info (fict st1 T) t b q HMF Hfr Hal' Hin) as [(Hres & Hj & h1 & Hh1 & Hm1)|[(Hgj & c & n & Hc & Hn & Hz)|Hk]];
+      cbn [fict f_hist f_db] in *.
+    3:{ (* KILL: the invariant *)
+        assert (Hbox : in_box (f_db st5) (f_hosts st5) [] q).
+        { left. exists (q_raft q), (for_addr (q_raft q) b). rewrite Ed. cbn [set_requests d_requests]. rewrite put_requests_lookup.
+          rewrite bool_decide_eq_true_2 by done. split; [done|]. unfold for_addr. apply elem_of_list_filter. done. }
+        destruct (li_reqs _ _ _ _ _ HI5 q Hbox) as [_ Hreq]. unfold is_kill in Hk. destruct (q_type q) eqn:Ety; try done.
+        destruct Hreq as (y & Hy & Hd). left; right; right. split; [unfold is_kill; by rewrite Ety|]. exists y. split; [done|].
+        intros h Hh. rewrite Ehi in Hd. by destruct (Hd h Hh). }
+    - (* restore for a member of the membership Drummer's view shows *)
+      set (s := q_shard q) in *. destruct (Hext s) as [l Hl].
+      pose proof (li_hist _ _ _ _ _ HI1 s h1 Hh1) as Hw1. pose proof (hist_wf_nonempty _ _ Hw1) as Hne1.
+      assert (Hh4 : f_hist st4 !! s = Some (l ++ h1)).
+      { unfold hist_of in Hl. rewrite Hh1 in Hl. cbn in Hl. destruct (f_hist st4 !! s) as [h4|]; cbn in Hl; [by rewrite Hl|]. by destruct l. }
+      pose proof (li_hist _ _ _ _ _ HI4 s _ Hh4) as Hw4.
+      pose proof (hist_wf_app_version _ l h1 Hw4 Hne1) as Hver.
+      destruct (mp_members _ _ HP1 s h1 Hh1) as (c & Hc & _ & Hmem1). destruct (Hmem1 _ _ Hm1) as (Hr0 & Ha0 & _).
+      pose proof (Hcur1 s h1 c Hh1 Hc) as Hcc.
+      destruct (mp_members _ _ HP4 s _ Hh4) as (c4 & Hc4 & Hcase4 & _). rewrite Hdb in Hc4. cbn [set_tick d_view] in Hc4. assert (c4 = c) as -> by congruence.
+      destruct Hcase4 as [Hcc4|(v & M & M' & x & rest & Hb)].
+      + assert (l = []) as -> by (destruct l; [done|cbn [length] in Hver; lia]). cbn [app] in Hh4.
+        left; left. split; [done|]. split; [done|]. exists h1, (q_raft q). done.
+      + pose proof Hb as (Hhh & Hv & Hkind).
+        assert (Hl1 : ∃ e, l = [e]).
+        { rewrite Hhh in Hver. cbn [cur_version fst] in Hver. destruct l as [|e [|e2 l2]]; [cbn in Hver; lia|by exists e|cbn [length] in Hver; lia]. }
+        destruct Hl1 as [e ->]. cbn [app] in Hhh. injection Hhh as -> ->. cbn [cur_members snd] in Hm1.
+        destruct (Hnc4 s _ c v M M' x rest Hh4 ltac:(rewrite Hdb; exact Hc) Hb) as [Hsnz _].
+        destruct Hkind as [[HMx [t' ->]]|[[? HMx] ->]].
+        * left; left. split; [done|]. split; [done|]. eexists _, (q_raft q). split; [exact Hh4|]. cbn.
+          assert (q_inst q ≠ x) by (intros Heq; rewrite Heq in Hm1; congruence). by rewrite lookup_insert_ne.
+        * destruct (decide (q_inst q = x)) as [Heq|Hnx].
+          -- right; right. split; [done|]. split; [done|]. eexists. split; [exact Hh4|]. cbn. split; [rewrite Heq; by rewrite lookup_delete|].
+             split; [|done]. intros r' Hr'. apply lookup_delete_Some in Hr' as [Hne' Hr'].
+             assert (Hmok : mem_ok (shard_size (f_db st1) s) M) by (apply (hist_wf_mem_ok _ _ Hw1 (v, M)); left).
+             destruct Hmok as [_ Hinj]. apply Hne'. rewrite <- Heq. symmetry. by apply (Hinj r' (q_inst q) (q_raft q)).
+          -- left; left. split; [done|]. split; [done|]. eexists _, (q_raft q). split; [exact Hh4|]. cbn. by rewrite lookup_delete_ne.
+    - (* join-CREATE for a member the view shows as waiting: its shard is not ahead of the view *)
+      destruct Hgj as (Hcr & Hj & Hre & h1 & Hh1 & Hm1).
+      set (s := q_shard q) in *. destruct (Hext s) as [l Hl].
+      pose proof (li_hist _ _ _ _ _ HI1 s h1 Hh1) as Hw1. pose proof (hist_wf_nonempty _ _ Hw1) as Hne1.
+      assert (Hh4 : f_hist st4 !! s = Some (l ++ h1)).
+      { unfold hist_of in Hl. rewrite Hh1 in Hl. cbn in Hl. destruct (f_hist st4 !! s) as [h4|]; cbn in Hl; [by rewrite Hl|]. by destruct l. }
+      pose proof (li_hist _ _ _ _ _ HI4 s _ Hh4) as Hw4.
+      pose proof (hist_wf_app_version _ l h1 Hw4 Hne1) as Hver.
+      assert (Hc1 : d_view (f_db st1) !! s = Some c) by exact Hc.
+      pose proof (Hcur1 s h1 c Hh1 Hc1) as Hcc.
+      destruct (mp_members _ _ HP4 s _ Hh4) as (c4 & Hc4 & Hcase4 & _). pose proof Hc4 as Hc4'. rewrite Hdb in Hc4. cbn [set_tick d_view] in Hc4. assert (c4 = c) as -> by congruence.
+      destruct Hcase4 as [Hcc4|(v & M & M' & x & rest & Hb)].
+      + assert (l = []) as -> by (destruct l; [done|cbn [length] in Hver; lia]). cbn [app] in Hh4.
+        right; left. split; [done|]. split; [done|]. split; [done|]. exists h1. done.
+      + exfalso. destruct (mp_behind _ _ HP4 s _ c v M M' x rest Hh4 Hc4' Hb) as (Hst & _). by apply (Hst _ n Hn). }
+  split; [|split; [done|split; [done|]]].
+  2:{ intros a q Hq. rewrite Ehi. by apply Hall. }
+  split; [exact HI5|]. split.
+  - destruct HP4. split; try rewrite Ed; try rewrite Eh; try rewrite Ehi; cbn [set_requests d_tick d_shards d_view d_kill]; try done.
+    all: try (rewrite Ed in Hto5; exact Hto5).
+    intros a q Hq. left. by apply Hall.
+  - intros a Ha. rewrite Eh. apply Hoh4. rewrite Ed in Ha. exact Ha.
+Qed.
+
+(* after the report phase the Requests of every NodeHost that reported are empty *)
+Lemma mendb_reports_requests (plogs : N → bool) (l : list N) : ∀ st st',
+  LoopInv st → MendP (nonout st) st → NoDup l → (∀ a, a ∈ l → is_Some (f_hosts st !! a)) →
+  steps P st (l ≫= λ a, [ESnap a (plogs a); EDeliver a false]) = Some st' →
+  ∀ a, a ∈ l → d_requests (f_db st') !! a = None.
+Proof.
+  induction l as [|a l IH]; intros st st' HI HP Hnd Hl Hs a0 Hin; [by apply elem_of_nil in Hin|].
+  apply NoDup_cons in Hnd as [Hnotin Hnd]. destruct (Hl a) as [fh Ha]; [left|].
+  destruct (mendb_report st a fh (plogs a) HI HP Ha) as (st1 & E1 & [HI1 HP1] & _ & _ & _ & _ & _ & _ & _ & Hrq1 & Hho1 & _).
+  rewrite bind_cons, steps_app, E1 in Hs.
+  assert (Hl1 : ∀ a', a' ∈ l → is_Some (f_hosts st1 !! a')).
+  { intros a' Hin'. rewrite Hho1. destruct (decide (a' = a)) as [->|Hne]; [by rewrite lookup_insert|]. rewrite lookup_insert_ne by done. apply Hl. by right. }
+  destruct (decide (a0 ∈ l)) as [Hin0|Hnin0]; [by apply (IH st1 st' HI1 HP1 Hnd Hl1 Hs)|].
+  apply elem_of_cons in Hin as [->|?]; [|done].
+  (* the later reports do not touch the Requests of a *)
+  assert (Hkeep : ∀ l0 stx stx', NoDup l0 → a ∉ l0 → LoopInv stx → MendP (nonout stx) stx → (∀ a', a' ∈ l0 → is_Some (f_hosts stx !! a')) →
+            steps P stx (l0 ≫= λ a, [ESnap a (plogs a); EDeliver a false]) = Some stx' → d_requests (f_db stx) !! a = None → d_requests (f_db stx') !! a = None).
+  { clear. induction l0 as [|b l0 IH0]; intros stx stx' Hnd Hna HIx HPx Hlx Hsx Hnone; [cbn in Hsx; by injection Hsx as <-|].
+    apply NoDup_cons in Hnd as [Hnb Hnd]. apply not_elem_of_cons in Hna as [Hab Hna]. destruct (Hlx b) as [fhb Hb]; [left|].
+    destruct (mendb_report stx b fhb (plogs b) HIx HPx Hb) as (sty & Ey & [HIy HPy] & _ & _ & _ & _ & _ & _ & _ & Hrqy & Hhoy & _).
+    rewrite bind_cons, steps_app, Ey in Hsx. apply (IH0 sty stx' Hnd Hna HIy HPy); [|done|].
+    - intros a' Hin'. rewrite Hhoy. destruct (decide (a' = b)) as [->|Hne]; [by rewrite lookup_insert|]. rewrite lookup_insert_ne by done. apply Hlx. by right.
+    - rewrite Hrqy. by rewrite lookup_delete_ne. }
+  apply (Hkeep l st1 st' Hnd Hnotin HI1 HP1 Hl1 Hs). rewrite Hrq1. by rewrite lookup_delete.
+Qed.
+
+(** * the round in which membership changes are applied *)
+Theorem mendb_round st st' plogs nticks o :
+  MendB st → (∀ a, plogs a = true) → N.of_nat nticks * p_step P ≤ p_ttl P →
+  healthy_round P plogs nticks o st = Some st' →
+  ∃ b, o = OBatch b ∧ add_ids b = [] ∧ MendB st' ∧ (∀ a q, nonout st' a q → mharmless (f_hist st') a q).
+Proof.
+  intros (HI & HP & Hoh) Hpl Httl. unfold healthy_round. set (t := d_tick (f_db st)).
+  destruct (mendb_reports plogs (host_addrs st) st HI HP (host_addrs_nodup st)) as
+    (st1 & E1 & [HI1 HP1] & Ho1a & Ho1b & Hsub1 & Hhi1 & Hse1 & Ht1 & Hsh1 & Hho1 & Hho1' & Hv1 & Hst1 & Hsp1 & _).
+  { intros a. apply host_addrs_elem. }
+  pose proof (mendb_reports_requests plogs (host_addrs st) st st1 HI HP (host_addrs_nodup st) ltac:(intros a; apply host_addrs_elem) E1) as Hrq1.
+  rewrite E1.
+  (* the NodeHosts are the same *)
+  assert (Hdom1 : ∀ a, is_Some (f_hosts st1 !! a) ↔ is_Some (f_hosts st !! a)).
+  { intros a. destruct (f_hosts st !! a) as [fh|] eqn:Ha.
+    - destruct (Hho1 a fh) as (fh' & -> & _); [apply host_addrs_elem; by eexists|done|]. split; intros _; by eexists.
+    - rewrite Hho1', Ha; [done|]. intros Hin. apply host_addrs_elem in Hin. rewrite Ha in Hin. by destruct Hin. }
+  (* every view is current after the reports *)
+  assert (Hcur1 : ∀ s h c1, f_hist st1 !! s = Some h → d_view (f_db st1) !! s = Some c1 → s_cci c1 = cur_version h).
+  { intros s h c1 Hh1 Hc1. rewrite Hhi1 in Hh1.
+    destruct (mp_members _ _ HP s h Hh1) as (c & Hc & Hcase & _).
+    destruct (Hv1 s h c Hh1 Hc) as (c' & Hc' & _ & Hkeep & Hknow). assert (c' = c1) as -> by congruence.
+    destruct Hcase as [Hcc|(v & M & M' & x & rest & Hb)]; [by apply Hkeep|].
+    destruct (mp_behind _ _ HP s h c v M M' x rest Hh1 Hc Hb) as (_ & _ & a0 & fh0 & rid & lr & Hfh0 & Hk & Hrun & Hver).
+    apply Hknow. exists a0, fh0, rid, lr. split; [apply host_addrs_elem; by eexists|]. destruct Hb as (Hhh & _). rewrite Hhh. cbn. done. }
+  assert (HX1 : MendX st1).
+  { split; [split; [done|split; [done|]]|].
+    - intros a Ha. apply Hdom1. destruct (decide (a ∈ host_addrs st)) as [Hin|Hnin]; [by apply host_addrs_elem|].
+      apply Hoh. rewrite <- (Ho1b a Hnin). exact Ha.
+    - intros s h c v M M' x rest Hh Hc Hb. exfalso. pose proof (Hcur1 s h c Hh Hc) as Hcc. destruct Hb as (-> & Hv & _). cbn in Hcc. lia. }
+  destruct (steps P st1 ((λ a, EExec a true) <$> host_addrs st1)) as [st2|] eqn:E2; [|done].
+  destruct (mendx_execs (host_addrs st1) st1 st2 HX1 E2) as (HX2 & Hd2 & Hq2).
+  pose proof (execs_hist (host_addrs st1) st1 st2 E2) as Hext2.
+  destruct (steps P st2 (catch_up_events st2)) as [st3|] eqn:E3; [|done].
+  destruct (mendx_learns st2 st3 HX2 E3) as (HX3 & Hd3 & Hhi3 & Hf3).
+  destruct (steps P st3 (replicate nticks ETick)) as [st4|] eqn:E4; [|done].
+  destruct (mendx_ticks nticks st3 st4 HX3 E4) as (HX4 & Hd4 & Hho4 & Hhi4).
+  destruct (fstep P st4 (ESchedule o)) as [st5| |] eqn:E5; try done. intros [= <-].
+  set (T := d_tick (f_db st1) + N.of_nat nticks * p_step P).
+  assert (Hdb : f_db st4 = set_tick (f_db st1) T) by (rewrite Hd4, Hd3, Hd2; done).
+  destruct (mendx_schedule st1 st4 o st5 t T HI1 HP1 Hcur1) as (b & Ho & Hadd & HB5 & Hhi5 & Hho5 & Hinert); [|done|done| | | |done|].
+  - (* every stamped member's NodeHost has reported at t, persisted log included *)
+    intros s h rid a Hh Hm Hst. rewrite Hhi1 in Hh.
+    destruct (mp_members _ _ HP s h Hh) as (c & Hc & _ & Hmem). destruct (Hmem rid a Hm) as (_ & _ & fh & Hfh & Hdata).
+    assert (Hk : is_Some (fh_reps fh !! (s, rid))).
+    { destruct (Hst1 s rid Hst) as [Hold|(a' & fh' & _ & Hfh' & Hrun)]; [by apply Hdata|].
+      unfold runs_on in Hrun. destruct (fh_reps fh' !! (s, rid)) as [lr|] eqn:Ek; [|done].
+      assert (a = a') as <- by (by apply (mp_home _ _ HP a' fh' s rid lr h a)). assert (fh' = fh) as -> by congruence. by eexists. }
+    destruct (Hsp1 a fh) as (hh & Hhh & Htk & Hplog); [apply host_addrs_elem; by eexists|done|].
+    exists hh. split; [done|]. split; [done|]. by apply Hplog; [apply Hpl|].
+  - unfold T. rewrite Ht1. fold t. lia.
+  - intros s. rewrite Hhi4, Hhi3. apply Hext2.
+  - (* nothing is pending for a NodeHost *)
+    intros a q Hq. destruct (f_hosts st4 !! a) as [fh4|] eqn:Ha4; [|done]. exfalso.
+    rewrite Hho4 in Ha4. specialize (Hf3 a). specialize (Hq2 a).
+    destruct (f_hosts st2 !! a) as [fh2|] eqn:Ha2; [|congruence]. destruct Hf3 as (fh3 & Hfh3 & Hq3). assert (fh3 = fh4) as -> by congruence.
+    destruct (f_hosts st1 !! a) as [fh1|] eqn:Ha1; [|congruence]. destruct Hq2 as (fh2' & Hfh2' & Hqq2). assert (fh2' = fh2) as -> by congruence.
+    assert (Hin1 : a ∈ host_addrs st1) by (apply host_addrs_elem; by eexists).
+    assert (Hin : a ∈ host_addrs st) by (apply host_addrs_elem, Hdom1; by eexists).
+    rewrite decide_True in Hqq2 by done.
+    destruct Hq as [(qs & Hl & _)|(fh & Hl & Hinq)].
+    + rewrite Hdb in Hl. cbn [set_tick d_requests] in Hl. rewrite (Hrq1 a Hin) in Hl. done.
+    + rewrite Hho4, Hfh3 in Hl. injection Hl as <-. rewrite Hq3, Hqq2 in Hinq. by apply elem_of_nil in Hinq.
+  - exists b. done.
+Qed.
+
+(** * the round after: every pending request is a leftover; the reports replace the Outgoing copies *)
+Lemma mp_mend (B : N → request → Prop) st :
+  LoopInv st → MendP B st →
+  (∀ s h c, f_hist st !! s = Some h → d_view (f_db st) !! s = Some c → s_cci c = cur_version h) →
+  (∀ a q, boxed_at st a q → mharmless (f_hist st) a q) → Mend st.
+Proof.
+  intros HI HP Hcur Hbox. destruct HP. split; try done.
+  intros s h Hh. destruct (mp_members0 s h Hh) as (c & Hc & _ & Hmem). exists c. split; [done|]. split; [by apply (Hcur s)|done].
+Qed.
+
+Theorem mendb_inert_round st st' plogs nticks o :
+  MendB st → (∀ a q, nonout st a q → mharmless (f_hist st) a q) →
+  (∀ a, plogs a = true) → N.of_nat nticks * p_step P ≤ p_ttl P →
+  healthy_round P plogs nticks o st = Some st' →
+  ∃ b, o = OBatch b ∧ add_ids b = [] ∧ Mend st'.
+Proof.
+  intros (HI & HP & Hoh) Hinert Hpl Httl. unfold healthy_round. set (t := d_tick (f_db st)).
+  destruct (mendb_reports plogs (host_addrs st) st HI HP (host_addrs_nodup st)) as
+    (st1 & E1 & [HI1 HP1] & Ho1a & Ho1b & Hsub1 & Hhi1 & Hse1 & Ht1 & Hsh1 & Hho1 & Hho1' & Hv1 & Hst1 & Hsp1 & _).
+  { intros a. apply host_addrs_elem. }
+  rewrite E1.
+  assert (Hcur1 : ∀ s h c1, f_hist st1 !! s = Some h → d_view (f_db st1) !! s = Some c1 → s_cci c1 = cur_version h).
+  { intros s h c1 Hh1 Hc1. rewrite Hhi1 in Hh1.
+    destruct (mp_members _ _ HP s h Hh1) as (c & Hc & Hcase & _).
+    destruct (Hv1 s h c Hh1 Hc) as (c' & Hc' & _ & Hkeep & Hknow). assert (c' = c1) as -> by congruence.
+    destruct Hcase as [Hcc|(v & M & M' & x & rest & Hb)]; [by apply Hkeep|].
+    destruct (mp_behind _ _ HP s h c v M M' x rest Hh1 Hc Hb) as (_ & _ & a0 & fh0 & rid & lr & Hfh0 & Hk & Hrun & Hver).
+    apply Hknow. exists a0, fh0, rid, lr. split; [apply host_addrs_elem; by eexists|]. destruct Hb as (Hhh & _). rewrite Hhh. cbn. done. }
+  assert (HM1 : Mend st1).
+  { apply (mp_mend (nonout st1)); [done|done|done|]. intros a q Hq. rewrite Hhi1.
+    destruct Hq as [Hq|[(qs & Hl & Hin)|Hq]].
+    - apply Hinert, Hsub1. by left.
+    - destruct (decide (a ∈ host_addrs st)) as [Hin0|Hnin0].
+      + rewrite (Ho1a a Hin0) in Hl. apply Hinert. left. eauto.
+      + exfalso. rewrite (Ho1b a Hnin0) in Hl. apply Hnin0, host_addrs_elem, Hoh. by eexists.
+    - apply Hinert, Hsub1. by right. }
+  intros Htail. destruct (mend_tail P st1 t nticks o st' HM1 Ht1 Httl) as (b & Ho & Hadd & HM' & Hhi'); [|exact Htail|by exists b].
+  intros s h rid a Hh Hm Hst. rewrite Hhi1 in Hh.
+  destruct (mp_members _ _ HP s h Hh) as (c & Hc & _ & Hmem). destruct (Hmem rid a Hm) as (_ & _ & fh & Hfh & Hdata).
+  assert (Hk : is_Some (fh_reps fh !! (s, rid))).
+  { destruct (Hst1 s rid Hst) as [Hold|(a' & fh' & _ & Hfh' & Hrun)]; [by apply Hdata|].
+    unfold runs_on in Hrun. destruct (fh_reps fh' !! (s, rid)) as [lr|] eqn:Ek; [|done].
+    assert (a = a') as <- by (by apply (mp_home _ _ HP a' fh' s rid lr h a)). assert (fh' = fh) as -> by congruence. by eexists. }
+  destruct (Hsp1 a fh) as (hh & Hhh & Htk & Hplog); [apply host_addrs_elem; by eexists|done|].
+  destruct (Hho1 a fh) as (fh1 & Hfh1 & _); [apply host_addrs_elem; by eexists|done|].
+  exists hh, fh1. split; [done|]. split; [done|]. split; [|done]. by apply Hplog; [apply Hpl|].
+Qed.
+
+(** * healing *)
+Theorem mendb_heal os st st' plogs nticks :
+  MendB st → (∀ a, plogs a = true) → N.of_nat nticks * p_step P ≤ p_ttl P → (0 < nticks)%nat → 0 < p_step P →
+  (detect_rounds P nticks + 6 ≤ length os)%nat →
+  healthy_rounds P plogs nticks os st = Some st' →
+  Mend st' ∧ healed P st' = true.
+Proof.
+  intros HB Hpl Httl Hnt Hstep Hlen Hr. destruct os as [|o1 [|o2 os]]; [cbn in Hlen; lia|cbn in Hlen; lia|].
+  cbn [healthy_rounds] in Hr. destruct (healthy_round P plogs nticks o1 st) as [st1|] eqn:E1; [|done].
+  destruct (mendb_round st st1 plogs nticks o1 HB Hpl Httl E1) as (b1 & _ & _ & HB1 & Hinert1).
+  destruct (healthy_round P plogs nticks o2 st1) as [st2|] eqn:E2; [|done].
+  destruct (mendb_inert_round st1 st2 plogs nticks o2 HB1 Hinert1 Hpl Httl E2) as (b2 & _ & _ & HM2).
+  apply (mend_heal_ge P plogs nticks Hpl Httl os st2 st' HM2 Hnt Hstep); [cbn [length] in Hlen; lia|done].
+Qed.
+End MendB.
+
+(** * MendA ⊆ MendB (given that only NodeHosts have Outgoing mailboxes) *)
+Theorem menda_mendb st : MendA st → out_hosts st → MendB st.
+Proof.
+  intros HA Hoh. pose proof (ma_inv _ HA) as HI. split; [done|]. split; [|done].
+  destruct HA. split; try done.
+  intros a q Hq. left. split; [|by apply (nonout_qextra st a q)].
+  apply ma_boxes. destruct Hq as [?|?]; [by left|by right; right].
+Qed.
+
+(** * the decidable part of MendB *)
+Definition erase_st (st : fstate) : fstate := mkF (erase_db (f_db st)) (eraseq <$> f_hosts st) (f_hist st) (f_seen st).
+
+Definition pendingl (st : fstate) : list (N * request) :=
+  (map_to_list (d_requests (f_db st)) ≫= λ aq, (λ q, (aq.1, q)) <$> aq.2) ++
+  (map_to_list (f_hosts st) ≫= λ ah, (λ q, (ah.1, q)) <$> fh_queue ah.2).
+
+Lemma pendingl_elem st a q : (a, q) ∈ pendingl st ↔ nonout st a q.
+Proof.
+  unfold pendingl, nonout. rewrite elem_of_app, !elem_of_list_bind. split.
+  - intros [([a0 qs] & Hin & Hm)|([a0 fh] & Hin & Hm)]; apply elem_of_list_fmap in Hin as (q0 & [= -> ->] & Hq0); apply elem_of_map_to_list in Hm; cbn in *; eauto.
+  - intros [(qs & Hl & Hin)|(fh & Hl & Hin)].
+    + left. exists (a, qs). split; [apply elem_of_list_fmap; by exists q|by apply elem_of_map_to_list].
+    + right. exists (a, fh). split; [apply elem_of_list_fmap; by exists q|by apply elem_of_map_to_list].
+Qed.
+
+Definition lchangeb (st : fstate) (a : N) (q : request) : bool :=
+  let s := q_shard q in
+  let h := hist_of (f_hist st) s in
+  is_change q && (q_ccid q =? cur_version h) && bool_decide (is_Some (f_hosts st !! a)) && negb (s =? 0)
+  && forallb (λ aq : N * request, negb (is_create aq.2 && (q_shard aq.2 =? s))) (pendingl st)
+  && (negb (is_add q) ||
+      match q_members q, q_addrs q with
+      | [x], [t] =>
+        negb (x =? 0) && negb (t =? 0) && bool_decide (is_Some (f_hosts st !! t))
+        && forallb (λ ra : N * N, negb (ra.2 =? t)) (map_to_list (cur_members h))
+        && match f_hosts st !! t with
+           | Some fh => forallb (λ kl : (N * N) * lrep, negb (kl.1.1 =? s)) (map_to_list (fh_reps fh))
+           | None => true
+           end
+        && forallb (λ ah : N * fhost, bool_decide (fh_reps ah.2 !! (s, x) = None)) (map_to_list (f_hosts st))
+      | _, _ => false
+      end)
+  && (negb (is_delete q) ||
+      match q_members q with
+      | [y] => negb (y =? 0) && negb (bool_decide (cur_members h !! y = Some a))
+      | _ => false
+      end)
+  && match d_view (f_db st) !! s with
+     | Some c => (s_cci c =? q_ccid q) && forallb (λ rn : N * replica, negb (r_tick rn.2 =? 0)) (map_to_list (s_reps c))
+     | None => false
+     end.
+
+Lemma lchangeb_sound st a q :
+  lchangeb st a q = true → lchange (nonout st) (f_hosts st) (f_hist st) a q ∧ vready (f_db st) q.
+Proof.
+  unfold lchangeb. cbn zeta. intros H.
+  apply andb_true_iff in H as [H Hview]. apply andb_true_iff in H as [H Hdel]. apply andb_true_iff in H as [H Hadd].
+  apply andb_true_iff in H as [H Hnc]. apply andb_true_iff in H as [H Hsnz]. apply andb_true_iff in H as [H Hah].
+  apply andb_true_iff in H as [Hch Hf]. apply N.eqb_eq in Hf. apply bool_decide_eq_true in Hah. apply negb_true_iff, N.eqb_neq in Hsnz.
+  split.
+  - split; [done|]. split; [done|]. split; [done|]. split; [|split].
+    + intros a' q' Hq' Hc Heq. apply pendingl_elem in Hq'. rewrite forallb_forall in Hnc. apply elem_of_list_In in Hq'. specialize (Hnc _ Hq'). cbn in Hnc.
+      rewrite Hc, Heq, N.eqb_refl in Hnc. done.
+    + intros Ha. rewrite Ha in Hadd. cbn [negb orb] in Hadd. destruct (q_members q) as [|x [|? ?]]; try done. destruct (q_addrs q) as [|t [|? ?]]; try done.
+      apply andb_true_iff in Hadd as [Hadd A6]. apply andb_true_iff in Hadd as [Hadd A5]. apply andb_true_iff in Hadd as [Hadd A4].
+      apply andb_true_iff in Hadd as [Hadd A3]. apply andb_true_iff in Hadd as [A1 A2].
+      apply negb_true_iff, N.eqb_neq in A1, A2. apply bool_decide_eq_true in A3.
+      exists x, t. split; [done|]. split; [done|]. split; [done|]. split; [done|]. split; [done|]. split; [|split].
+      * intros r' Hr'. pose proof (forallb_map_to_list _ _ A4 r' t Hr') as Hz. cbn in Hz. by rewrite N.eqb_refl in Hz.
+      * intros fh rid Hfh. rewrite Hfh in A5. destruct (fh_reps fh !! (q_shard q, rid)) as [lr|] eqn:Ek; [|done].
+        pose proof (forallb_map_to_list _ _ A5 _ _ Ek) as Hz. cbn in Hz. by rewrite N.eqb_refl in Hz.
+      * intros a' fh Hfh. pose proof (forallb_map_to_list _ _ A6 a' fh Hfh) as Hz. cbn in Hz. by apply bool_decide_eq_true in Hz.
+    + intros Hd. rewrite Hd in Hdel. cbn [negb orb] in Hdel. destruct (q_members q) as [|y [|? ?]]; try done.
+      apply andb_true_iff in Hdel as [D1 D2]. apply negb_true_iff, N.eqb_neq in D1. apply negb_true_iff, bool_decide_eq_false in D2.
+      exists y. done.
+  - destruct (d_view (f_db st) !! q_shard q) as [c|] eqn:Hc; [|done]. apply andb_true_iff in Hview as [V1 V2]. apply N.eqb_eq in V1.
+    exists c. split; [done|]. split; [done|]. intros rid n Hn. pose proof (forallb_map_to_list _ _ V2 rid n Hn) as Hz. cbn in Hz. by apply negb_true_iff, N.eqb_neq in Hz.
+Qed.
+
+Definition mendb_restb (st : fstate) : bool :=
+  menda_restb (erase_st st)
+  && forallb (λ aq : N * request, okreqb st aq.1 aq.2 || lchangeb st aq.1 aq.2) (pendingl st)
+  && forallb (λ aq : N * list request, bool_decide (is_Some (f_hosts st !! aq.1))) (map_to_list (d_outgoing (f_db st))).
+
+Theorem mendb_restb_sound st : LoopInv st → mendb_restb st = true → MendB st.
+Proof.
+  intros HI H. unfold mendb_restb in H. apply andb_true_iff in H as [H Hout]. apply andb_true_iff in H as [HA Hbox].
+  assert (Hl : ∀ a fh', (eraseq <$> f_hosts st) !! a = Some fh' → ∃ fh, f_hosts st !! a = Some fh ∧ fh' = eraseq fh).
+  { intros a fh'. rewrite lookup_fmap. destruct (f_hosts st !! a) as [fh|]; [|done]. cbn. intros [= <-]. by exists fh. }
+  assert (Hto : ∀ a fh, f_hosts st !! a = Some fh → (eraseq <$> f_hosts st) !! a = Some (eraseq fh)) by (intros a fh Hfh; by rewrite lookup_fmap, Hfh).
+  assert (HIE : LoopInv (erase_st st)).
+  { unfold LoopInv, erase_st. cbn [f_db f_hosts f_hist f_seen]. apply (LI_erase (f_db st) _ (f_hosts st) _); try done.
+    - intros a fh' Ha. destruct (Hl a fh' Ha) as (fh & Hfh & ->). by exists fh.
+    - intros q [(a & qs & Hq & _)|[(a & qs & Hq & _)|[(a & fh' & Ha & Hin)|Hin]]].
+      + cbn in Hq. by rewrite lookup_empty in Hq.
+      + cbn in Hq. by rewrite lookup_empty in Hq.
+      + destruct (Hl a fh' Ha) as (fh & Hfh & ->). cbn in Hin. by apply elem_of_nil in Hin.
+      + by apply elem_of_nil in Hin. }
+  pose proof (menda_restb_sound (erase_st st) HIE HA) as HM. destruct HM.
+  cbn [erase_st f_db f_hosts f_hist f_seen] in *.
+  split; [done|]. split.
+  - split.
+    + exact ma_timeok.
+    + exact ma_time.
+    + exact ma_defined.
+    + exact ma_viewdef.
+    + intros a fh Hfh. by apply (ma_hosts a (eraseq fh) (Hto a fh Hfh)).
+    + exact ma_kill.
+    + intros a q Hq. pose proof Hq as Hq'. apply pendingl_elem in Hq'. rewrite forallb_forall in Hbox. apply elem_of_list_In in Hq'. specialize (Hbox _ Hq'). cbn in Hbox.
+      apply orb_true_iff in Hbox as [Hok|Hlc].
+      * left. split; [by apply (okreqb_sound st)|by apply (nonout_qextra st a q)].
+      * right. by apply lchangeb_sound.
+    + intros s h Hh. destruct (ma_members s h Hh) as (c & Hc & Hcase & Hmem). exists c. split; [done|]. split; [done|].
+      intros rid a Hm. destruct (Hmem rid a Hm) as (? & ? & fh' & Hfh' & Hdata). split; [done|]. split; [done|].
+      destruct (Hl a fh' Hfh') as (fh & Hfh & ->). by exists fh.
+    + intros s h c v M M' x rest Hh Hc Hb. destruct (ma_behind s h c v M M' x rest Hh Hc Hb) as (H1 & H2 & a0 & fh0' & rid & lr & H3 & H4 & H5).
+      split; [done|]. split.
+      * intros HMx a fh lr' Hfh Hk. by apply (H2 HMx a (eraseq fh) lr' (Hto a fh Hfh)).
+      * destruct (Hl a0 fh0' H3) as (fh0 & Hfh0 & ->). by exists a0, fh0, rid, lr.
+    + exact ma_waiting.
+    + exact ma_onejoin.
+    + intros a fh s rid lr h a' Hfh Hk. by apply (ma_home a (eraseq fh) s rid lr h a' (Hto a fh Hfh)).
+    + intros a fh s rid lr Hfh Hk. by apply (ma_nostray a (eraseq fh) s rid lr (Hto a fh Hfh)).
+  - intros a [qs Ha]. pose proof (forallb_map_to_list _ _ Hout a qs Ha) as Hz. cbn in Hz. by apply bool_decide_eq_true in Hz.
+Qed.
